@@ -127,7 +127,10 @@ def c15_models(tier):
     eplens = (0, 1, 2, 3, 4) if tier == "quick" else (0, 1, 2, 3, 4, 5, 6)
     ms = [env_model("folds", G[:n], cs, [1], 4 if tier == "quick" else n + 1, [0], folds, [(False, -1), (True, -1)],
                     eplens=eplens, maxcalls=5 if tier == "quick" else 7, reset_anywhere=False,
-                    invariants=C15_INV, properties=["DoneIsAbsorbing"])]
+                    invariants=C15_INV, properties=["DoneIsAbsorbing"], reuse="extend")]
+    # an episode length passed to reset() holds for that episode only: later plain resets use the configured one again
+    ms.append(env_model("reset-length", G[:n], cs[:n], range(1, n + 1), 0, [0], [FOLD_ALL], [(False, -1)], eplens=(0, 2),
+                        resetlens=(0, 3, 4), maxcalls=5, reset_anywhere=True, invariants=C15_INV))
     # liveness under weak fairness of Step: an episode of n decisions does end (no state constraint; the call bound exceeds
     # the longest episode)
     ms.append(env_model("folds-live", G[:4], cs[:4] + cs[n:], [1], 2, [0], folds[:2], [(False, -1)], eplens=(0, 1, 2),
